@@ -1,0 +1,65 @@
+// +build verif
+
+// Hooks for the verification harness (build tag "verif"). Add-only: nothing in
+// this file is compiled into a normal build.
+
+package server
+
+import (
+	"net"
+
+	"github.com/honeytrap/honeytrap/config"
+	"github.com/honeytrap/honeytrap/director"
+	"github.com/honeytrap/honeytrap/event"
+	"github.com/honeytrap/honeytrap/pushers/eventbus"
+	"github.com/honeytrap/honeytrap/server/profiler"
+)
+
+// VerifNew returns a Honeytrap over its own configuration object (New shares
+// the package-level default configuration between instances) and token.
+func VerifNew(cfg *config.Config, token string) *Honeytrap {
+	return &Honeytrap{
+		config:   cfg,
+		director: director.MustDummy(),
+		bus:      eventbus.New(),
+		profiler: profiler.Dummy(),
+		token:    token,
+	}
+}
+
+// VerifSend puts an event on the instance's bus.
+func (hc *Honeytrap) VerifSend(e event.Event) {
+	hc.bus.Send(e)
+}
+
+// VerifHandle runs the real connection handler (findService, wrapping, Handle).
+func (hc *Honeytrap) VerifHandle(conn net.Conn) {
+	hc.handle(conn)
+}
+
+// VerifFindService runs the real findService and names the chosen service.
+func (hc *Honeytrap) VerifFindService(conn net.Conn) (string, net.Conn, error) {
+	sm, c, err := hc.findService(conn)
+	if sm == nil {
+		return "", c, err
+	}
+	return sm.Name, c, err
+}
+
+// VerifPorts lists the port table built by Run: address string -> service names.
+func (hc *Honeytrap) VerifPorts() map[string][]string {
+	res := map[string][]string{}
+	for k, v := range hc.ports {
+		var names []string
+		for _, sm := range v {
+			names = append(names, sm.Name)
+		}
+		res[k.Network()+"/"+k.String()] = names
+	}
+	return res
+}
+
+// VerifCompareAddr exposes compareAddr.
+func VerifCompareAddr(a, b net.Addr) bool {
+	return compareAddr(a, b)
+}
